@@ -2,12 +2,14 @@ SPECIFICATION SpecAll
 CONSTANTS
   Trees <- MTrees3
   Voters = {a, b, c, d}
+  EqV = {a, b}
+  PVUnanimous = FALSE
   W <- UnitW
   MaxPV = 2
-  MaxPC = 2
+  MaxPC = 0
   Depth = 0
-SYMMETRY Sym
-INVARIANTS TypeOK ChainWhenTolerant PaperThreshold PossibleForms Ordering ShortcutExact UnseenImpossible
+SYMMETRY SymEq
+INVARIANTS TypeOK ChainWhenTolerant
 PROPERTY Monotone
 VIEW View
 CHECK_DEADLOCK FALSE
